@@ -132,8 +132,18 @@ def _judge_totals(probs, of_names, wrt_names, fmon, acc, bad, step):
     """the identity with unit seed vectors, through the operator users drive most: compute_totals of the fwd-mode
     twin against compute_totals of the rev-mode twin (this is where the reverse-mode solution caches live)."""
     fmon.clear()
-    Jf = np.asarray(probs['fwd'].compute_totals(of=of_names, wrt=wrt_names, return_format='array'))
-    Jr = np.asarray(probs['rev'].compute_totals(of=of_names, wrt=wrt_names, return_format='array'))
+    from omv.kit.gmon import SolverAbort
+    fmon.abort = True      # a non-convergence report makes the step unjudgeable: stop at the first one
+    try:
+        Jf = np.asarray(probs['fwd'].compute_totals(of=of_names, wrt=wrt_names, return_format='array'))
+        Jr = np.asarray(probs['rev'].compute_totals(of=of_names, wrt=wrt_names, return_format='array'))
+    except SolverAbort:
+        # the problems were left in the middle of a derivative computation: the rest of this history is not judged
+        acc.count('skipped:linear-nonconvergence-total')
+        acc.count('skipped:history-after-aborted-compute_totals')
+        return False
+    finally:
+        fmon.abort = False
     if fmon.failures:
         acc.count('skipped:linear-nonconvergence-total')
         return
@@ -340,7 +350,8 @@ def run_case(case, acc):
                                  linearize=False, memo=memo)
                 if cached and k % 2 == 0:
                     # (every column is a linear solve: only in the models built for the solution caches)
-                    _judge_totals(probs, of_names, wrt_names, fmon, acc, bad, step)
+                    if _judge_totals(probs, of_names, wrt_names, fmon, acc, bad, step) is False:
+                        break
                 # ---- group operators (rev-mode problem has both transfer directions) -------------------
                 p.model.run_linearize()
                 if scaled and k == 0:
@@ -491,7 +502,8 @@ def run_stock_case(case, acc):
                 if move == 'relin':
                     _judge_total(probs, of_names, wrt_names, [(n,)], [(n,), (n,)], nr, fmon, acc, bad, step,
                                  linearize=False, memo=memo)
-                _judge_totals(probs, tot_of, wrt_names, fmon, acc, bad, step)
+                if _judge_totals(probs, tot_of, wrt_names, fmon, acc, bad, step) is False:
+                    break
                 p.model.run_linearize()
                 _judge_systems(systems, nr, fmon, acc, bad, step, 2 if k == 0 else 1, memo=memo)
                 if k > 0:
